@@ -8,6 +8,7 @@ import (
 	"os"
 	"runtime"
 	"strings"
+	"syscall"
 	"time"
 
 	"go.uber.org/thriftrw/protocol/binary"
@@ -171,7 +172,7 @@ func c13Case(c *checker, api string, t byte, b []byte) {
 		wdEnter(fmt.Sprintf("A stream %d %s", t, hx(b)))
 	}
 	defer wdLeave()
-	t0 := time.Now()
+	t0 := cpuTime()
 	p := safely(func() {
 		switch api {
 		case "stream":
@@ -227,11 +228,11 @@ func c13Case(c *checker, api string, t byte, b []byte) {
 			})
 		}
 	})
-	elapsed := time.Since(t0)
+	elapsed := cpuTime() - t0 // CPU time of this process, not wall time: a loaded machine must not raise an alarm
 	c.rep.Hist("api", api)
 	c.rep.Case(key, true)
 	if elapsed > time.Second {
-		c.oracle("C13 work not linear in the input size", key, fmt.Sprintf("took %.2fs", elapsed.Seconds()),
+		c.oracle("C13 work not linear in the input size", key, fmt.Sprintf("took %.2fs of CPU time", elapsed.Seconds()),
 			fmt.Sprintf("N=%d bytes; bound 1s", n))
 		slowCases++
 		if slowCases >= 3 { // every further case would be as slow: report what was found and stop
@@ -391,4 +392,13 @@ func runC13(c *checker, r *rng.R) {
 	c.flushCost()
 	c.rep.Rule = "messages ≤ 64 bytes (random structs, optionally enveloped strict/legacy) with every 4-byte length/count position set to each of {2^16, 2^20-1, 2^20, 2^20+1, 2^24, 2^27, 2^31-1, 0xffffffff, 0x80000000}; top-level containers of every element type; envelope name length; frame length × APIs {stream primitives, Skip, Decode+EvaluateValue, ReadEnvelopeBegin, DecodeEnveloped, DecodeRequest, ReadRequest, frame reader}; measured = runtime TotalAlloc delta; every case non-trivial; distinct by (api, bytes)"
 	_ = strings.TrimSpace
+}
+
+// cpuTime is the CPU time (user + system) this process has consumed so far.
+func cpuTime() time.Duration {
+	var ru syscall.Rusage
+	if err := syscall.Getrusage(syscall.RUSAGE_SELF, &ru); err != nil {
+		return 0
+	}
+	return time.Duration(ru.Utime.Nano() + ru.Stime.Nano())
 }
